@@ -141,10 +141,12 @@ static void run_schedule(const uint8_t *pfx, int npfx) { if (!SHR) SHR = (shr_t 
 static void run_schedule2(const uint8_t *pfx, int npfx) { GEN++; NTR = 0; NPFX = npfx; if (npfx) __real_memcpy(PFX, pfx, npfx); DIVERGED = 0; DEADLOCK = 0; pipes_reset(); sem_init(&MAINSEM, 0, 0); pthread_t th[MAXT]; pthread_attr_t at; pthread_attr_init(&at); pthread_attr_setstacksize(&at, 8 << 20);
 	for (int t = 0; t < NT; t++) { DONE[t] = 0; WAITING[t] = -1; sem_init(&SEM[t], 0, 0); } for (int t = 0; t < NT; t++) pthread_create(&th[t], &at, task_thread, (void *)(intptr_t)t);
 	ME = -1; int first = choose_next(-1); CUR = first; sem_post(&SEM[first]); sem_wait(&MAINSEM); for (int t = 0; t < NT; t++) pthread_join(th[t], NULL); pthread_attr_destroy(&at); }
-static const char *symbol_of(uintptr_t addr) { static char out[160]; snprintf(out, sizeof out, "data+0x%lx", (unsigned long)(addr - (uintptr_t)__data_start)); if (addr < (uintptr_t)__data_start || addr >= (uintptr_t)_end) { snprintf(out, sizeof out, "heap-or-other"); return out; }
-	char exe[300]; ssize_t el = readlink("/proc/self/exe", exe, sizeof exe - 1); if (el <= 0) return out; exe[el] = 0; char cmd[400]; snprintf(cmd, sizeof cmd, "nm -n '%s' 2>/dev/null", exe); FILE *f = popen(cmd, "r"); if (!f) return out; char line[400], best[120] = ""; uintptr_t base = 0; /* PIE: find the load bias through a known symbol */ uintptr_t bias = 0, known = 0; char sym[200]; unsigned long v; char ty;
-	while (fgets(line, sizeof line, f)) if (sscanf(line, "%lx %c %199s", &v, &ty, sym) == 3 && !strcmp(sym, "__data_start")) known = v; pclose(f); bias = (uintptr_t)__data_start - known; f = popen(cmd, "r"); if (!f) return out;
-	while (fgets(line, sizeof line, f)) if (sscanf(line, "%lx %c %199s", &v, &ty, sym) == 3 && strchr("bBdD", ty)) { if (v + bias <= addr) { snprintf(best, sizeof best, "%s", sym); base = v + bias; } else break; } pclose(f); if (best[0]) snprintf(out, sizeof out, "%s+%lu", best, (unsigned long)(addr - base)); return out; }
+/* data-segment symbol table of this executable (nm -n, read once) */
+typedef struct { uintptr_t a; char n[64]; } sym_t; static sym_t *SYMS; static int NSYMS = -1;
+static void syms_load(void) { NSYMS = 0; char exe[300]; ssize_t el = readlink("/proc/self/exe", exe, sizeof exe - 1); if (el <= 0) return; exe[el] = 0; char cmd[400]; snprintf(cmd, sizeof cmd, "nm -n '%s' 2>/dev/null", exe); FILE *f = popen(cmd, "r"); if (!f) return; SYMS = (sym_t *)malloc(sizeof(sym_t) * 40000); char line[400], sym[200]; unsigned long v; char ty; uintptr_t known = 0;
+	while (fgets(line, sizeof line, f)) { if (sscanf(line, "%lx %c %199s", &v, &ty, sym) != 3) continue; if (!strcmp(sym, "__data_start")) known = v; if (strchr("bBdD", ty) && NSYMS < 40000) { SYMS[NSYMS].a = v; snprintf(SYMS[NSYMS].n, sizeof SYMS[NSYMS].n, "%s", sym); NSYMS++; } } pclose(f); uintptr_t bias = (uintptr_t)__data_start - known; for (int i = 0; i < NSYMS; i++) SYMS[i].a += bias; }
+static const char *symbol_of(uintptr_t addr) { static char out[160]; if (addr < (uintptr_t)__data_start || addr >= (uintptr_t)_end) { snprintf(out, sizeof out, "heap-or-other"); return out; } if (NSYMS < 0) syms_load(); snprintf(out, sizeof out, "data+0x%lx", (unsigned long)(addr - (uintptr_t)__data_start));
+	int best = -1; for (int i = 0; i < NSYMS; i++) { if (SYMS[i].a <= addr) best = i; else if (SYMS[i].a > (uintptr_t)__data_start) break; } if (best >= 0) snprintf(out, sizeof out, "%s+%lu", SYMS[best].n, (unsigned long)(addr - SYMS[best].a)); return out; }
 static uint64_t NSCHED, NEXEC; static uint64_t OUTCOMES_SEEN[64]; static int NOUTC;
 static void combo_name(char *b, size_t n) { b[0] = 0; for (int t = 0; t < NT; t++) { char x[64]; snprintf(x, sizeof x, "%s%s%s", t ? "|" : "", OPS[TASK[t].op].name, TASK[t].role == 1 ? ":client" : TASK[t].role == 2 ? ":server" : ""); strncat(b, x, n - strlen(b) - 1); } }
 /* explore one combination with preemption bound; returns number of schedules */
